@@ -169,6 +169,16 @@ func ExecWriter(c WriterCase) hx.Verdict {
 			}
 		}
 		want := bytes.Join(c.Chunks, nil)
+		// siblings with names derived from the target (typical staging/backup names) must survive
+		siblings := map[string][]byte{}
+		for i, suf := range []string{".tmp", "~", ".bak", ".part", ".new"} {
+			sp := c.Path + suf
+			siblings[sp] = []byte(fmt.Sprintf("sibling-%d-of-%s", i, c.Path))
+			if err := fs.WriteFile(sp, append([]byte{}, siblings[sp]...), filesystem.DefaultUnixFileMode); err != nil {
+				return hx.Fail("setup", "WriteFile sibling: %v", err)
+			}
+		}
+		defer func() {}()
 		if c.HasPrior {
 			if c.PriorVia == "Writer" {
 				w, err := fs.Writer(c.Path)
@@ -234,6 +244,12 @@ func ExecWriter(c WriterCase) hx.Verdict {
 		}
 		if !bytes.Equal(data, want) {
 			return hx.Fail("reader-content", "[%s] Reader with buffer sizes %v returned %d bytes %q, stored %d bytes %q", c.Backend, c.Bufs, len(data), clip(data), len(want), clip(want))
+		}
+		for sp, sd := range siblings {
+			got, err := fs.ReadFile(sp)
+			if err != nil || !bytes.Equal(got, sd) {
+				return hx.Fail("writer-touched-sibling", "[%s] after Writer(%q)+Close the sibling file %q changed or vanished (err=%v, %d bytes, want %d)", c.Backend, c.Path, sp, err, len(got), len(sd))
+			}
 		}
 		if len(want) > 4096 {
 			v.Label("large")
